@@ -1,7 +1,157 @@
-//! C03 (to be filled in)
+//! C03 — sources and bystander files are never modified, even by self-copies or kills
+
 use super::*;
-pub fn run(_ctx: &Ctx) -> Report {
-    let mut r = Report::new("model_checking", "not implemented");
-    r.machinery_errors.push("C03 not implemented yet".into());
-    r
+use crate::explore::{explore, Judge};
+use crate::scen::{Entry, Kind};
+use std::sync::Arc;
+
+/// alias scenarios: the destination designates the source itself. Everything must stay as it was.
+pub fn judge_alias(_w: &Worker, _scen: &Scenario, ex: &Exec) -> Judgement {
+    let mut v = vec![];
+    for (k, b) in &ex.before {
+        match ex.snap.get(k) {
+            None => v.push(format!("{} disappeared", k)),
+            Some(a) => {
+                if b.kind == 'd' {
+                    if a.kind != 'd' || (a.mode, a.uid, a.gid) != (b.mode, b.uid, b.gid) {
+                        v.push(format!("directory {} changed", k));
+                    }
+                } else if let Some(d) = b.diff_all(a) {
+                    v.push(format!("{} changed: {}", k, d));
+                }
+            }
+        }
+    }
+    for k in ex.snap.keys() {
+        if !ex.before.contains_key(k) {
+            v.push(format!("{} appeared although the copy had to be refused or be a no-op", k));
+        }
+    }
+    v.truncate(6);
+    simple_judge(v, ex, true)
+}
+
+/// general rule: whatever the outcome, entries that are not mapped targets are untouched
+pub fn judge(w: &Worker, scen: &Scenario, ex: &Exec) -> Judgement {
+    if scen.name.starts_with("alias") {
+        return judge_alias(w, scen, ex);
+    }
+    let exp = model::expect(scen);
+    let mut v = model::untouched(&exp, &ex.before, &ex.snap);
+    v.truncate(6);
+    simple_judge(v, ex, true)
+}
+
+pub fn alias_scenarios() -> Vec<Scenario> {
+    let mut v = vec![];
+    for d in drivers() {
+        for bk in ["none", "numbered"] {
+            let mk = |name: &str, tree: Vec<Entry>, args: &[&str], cwd: &str| {
+                let mut a = vec!["--driver", d, "--backup", bk, "-w", "2"];
+                a.extend_from_slice(args);
+                let mut s = Scenario::new(&format!("alias-{}-{}-{}", name, d, bk), tree, &a);
+                s.cwd = cwd.to_string();
+                s
+            };
+            let f = || Entry::file("f", "precious source bytes").mode(0o640).mtime(1_300_000_000, 42);
+            v.push(mk("dot-slash", vec![f()], &["f", "./f"], ""));
+            v.push(mk("dir-dotdot", vec![f(), Entry::dir("d")], &["f", "d/../f"], ""));
+            v.push(mk("own-dir", vec![Entry::dir("d"), Entry::file("d/f", "precious source bytes").mtime(1_300_000_000, 42)], &["d/f", "d"], ""));
+            v.push(mk("cwd", vec![f()], &["f", "."], ""));
+            v.push(mk("abs-vs-rel", vec![f()], &["f", "{R}/f"], ""));
+            v.push(mk("symlink", vec![f(), Entry::link("lnk", "f")], &["f", "lnk"], ""));
+            v.push(mk("hardlink", vec![f(), Entry::new("h", Kind::Hardlink("f".into()))], &["f", "h"], ""));
+            v.push(mk("symlinked-dir", vec![Entry::dir("d"), Entry::file("d/f", "precious source bytes"), Entry::link("dl", "d")], &["d/f", "dl"], ""));
+            v.push(mk("recursive-onto-parent", vec![Entry::dir("p"), Entry::dir("p/d"), Entry::file("p/d/f", "precious"), Entry::file("p/d/g", "also")], &["-r", "p/d", "p"], ""));
+            v.push(mk("recursive-via-symlinked-dir", vec![Entry::dir("p"), Entry::dir("p/d"), Entry::file("p/d/f", "precious"), Entry::link("q", "p")], &["-r", "p/d", "q"], ""));
+            v.push(mk("recursive-T-dotdot", vec![Entry::dir("d"), Entry::file("d/f", "precious"), Entry::dir("e")], &["-r", "-T", "d", "e/../d"], ""));
+            v.push(mk("fifo-dot-slash", vec![Entry::new("p", Kind::Fifo)], &["p", "./p"], ""));
+            v.push(mk("socket-own-dir", vec![Entry::dir("d"), Entry::new("d/s", Kind::Socket)], &["d/s", "d"], ""));
+            v.push(mk("link-dot-slash", vec![f(), Entry::link("l", "f")], &["l", "./l"], ""));
+            v.push(mk("from-subdir", vec![Entry::dir("d"), Entry::file("d/f", "precious")], &["f", "../d/f"], "d"));
+        }
+    }
+    v
+}
+
+pub fn kill_scenarios() -> Vec<Scenario> {
+    let mut v = vec![];
+    for d in drivers() {
+        let tree = vec![
+            Entry::dir("src"),
+            Entry::file("src/a", "new content of a").mode(0o640).mtime(1_300_000_000, 1),
+            Entry::dir("src/d"),
+            Entry::file("src/d/n", "nested").mtime(1_300_000_002, 3),
+            Entry::link("src/l", "a"),
+            Entry::dir("dst"),
+            Entry::file("dst/a", "OLD CONTENT").mode(0o600).mtime(1_200_000_000, 7),
+            Entry::file("dst/a.~1~", "older").mtime(1_100_000_000, 0),
+            Entry::file("dst/keep", "bystander").mtime(1_200_000_002, 9).xattr("user.k", "v"),
+            Entry::file("outside", "not involved").mtime(1_200_000_003, 9),
+            Entry::link("outlink", "outside"),
+        ];
+        v.push(Scenario::new(&format!("kill-{}", d), tree, &["-r", "-T", "--backup", "numbered", "--driver", d, "-w", "2", "--block-size", "4", "src", "dst"]));
+    }
+    v
+}
+
+/// SIGKILL at every decision point of every execution with <= d deviations
+pub fn kill_sweep(ctx: &Ctx, scens: &[Scenario], d: usize, judge: Judge) -> Stats {
+    let pool = &ctx.pool;
+    let mut jobs = vec![];
+    for s in scens {
+        let s = Arc::new(s.clone());
+        for b in base_specs() {
+            jobs.push((s.clone(), b, d));
+        }
+    }
+    let accs = crate::explore::par_work(pool, jobs, Stats::default, |w, (scen, spec, budget): (Arc<Scenario>, RunSpec, usize), more, st: &mut Stats| {
+        if pool.expired() {
+            st.capped = true;
+            return;
+        }
+        if let Some(ex) = crate::explore::run_one(w, &scen, &spec, judge, st) {
+            if spec.kill_at.is_none() {
+                let start = spec.devs.last().map(|d| d.0).unwrap_or(0);
+                for k in start..ex.res.decisions.len() {
+                    let mut sp = spec.clone();
+                    sp.kill_at = Some(k);
+                    more.push((scen.clone(), sp, 0));
+                }
+                if budget > 0 {
+                    for c in crate::explore::children(&ex) {
+                        more.push((scen.clone(), c, budget - 1));
+                    }
+                }
+            }
+        }
+    });
+    let mut total = Stats::default();
+    for a in accs {
+        total.merge(a);
+    }
+    total
+}
+
+pub fn run(ctx: &Ctx) -> Report {
+    let mut rep = Report::new(
+        "fault_enumeration",
+        "alias relations between a source and its mapped destination (./f, d/../f, own directory, cwd, absolute spelling, symbolic link, hard link, symlinked directory, recursive variants, special files) x drivers x backup modes, each with <= 1 scheduling deviation; SIGKILL at every decision point of the executions of an overwrite-with-backup copy; every single injected failure of C04's site list; oracle: every entry that is not a mapped destination is identical before/after in content hash, kind, mode, owner, size, mtime, ctime, nlink, inode and xattrs (aliases: the whole sandbox is); non-trivial = distinct trace",
+    );
+    let j: Judge = &judge;
+    let mut jobs = vec![];
+    for s in alias_scenarios() {
+        let s = Arc::new(s);
+        for b in base_specs() {
+            jobs.push((s.clone(), b, if ctx.quick() { 0 } else { 1 }));
+        }
+    }
+    let st = explore(&ctx.pool, jobs, j);
+    rep.part("alias relations", st, serde_json::json!({"shapes": 15, "d": if ctx.quick() { 0 } else { 1 }}));
+    let st = kill_sweep(ctx, &kill_scenarios(), if ctx.quick() { 0 } else { 1 }, j);
+    rep.part("SIGKILL at every decision point", st, serde_json::json!({"deviations_before_the_kill": if ctx.quick() { 0 } else { 1 }}));
+    let (st, nsites) = c04::fault_sweep(ctx, j, 0);
+    rep.part("single injected failures (C04's sites)", st, serde_json::json!({"sites": nsites}));
+    rep.assumptions = vec!["kill = SIGKILL of the whole process between two system calls (the supervisor stops every thread at call boundaries); power-loss semantics are not modelled".into(), "atime is not compared".into()];
+    rep
 }
